@@ -339,6 +339,7 @@ func init() {
 			{Name: "exhaustive", QShards: 4, TShards: 12, Run: c15Exhaustive},
 			{Name: "random", QShards: 10, TShards: 14, Run: c15Random},
 			{Name: "fanout", Run: c15Fanout},
+			{Name: "parallel", Race: true, Run: trieParallel},
 		},
 	})
 }
